@@ -135,3 +135,28 @@ def flat_rechunk(ctx, rule, lname):
     ctx.check(rule, lname + ":chunk-sizes", o == Rat.atom("H") * Rat.atom("W") and i == Rat.atom("W"),
               "chunk-sizes:%s,%s" % (o, i), where, "chunks_exact(h*w) then chunks_exact(w)",
               "flat input split into chunks of %s then %s; row-major CxHxW needs h*w then w" % (o, i))
+
+
+def axis_typing(ctx, rule, fns, floor_tagged):
+    """R0x.2: no height/width mix-up in the index arithmetic of the given functions (sa/e3.py)."""
+    from .. import e3
+    c = ctx.crate
+    total = 0
+    for p in fns:
+        fn = ctx.fn(p)
+        a = e3.Axes(c, fn).run()
+        total += a.tagged
+        short_p = p.split("::", 1)[1] if "::" in p else p
+        seen = {}
+        for n, kind, d in a.conflicts:
+            key = "%s:%s" % (kind, pretty(n)[:70])
+            if key in seen:
+                continue
+            seen[key] = 1
+            ctx.bad(rule, short_p, kind + ":" + short(pretty(n), 70), c.loc(fn, n),
+                    "%s: %s - a height quantity is combined with a width quantity; square inputs hide this, non-square inputs / "
+                    "asymmetric stride, padding, dilation or kernels give wrong indices" % (p, d))
+        if not a.conflicts:
+            ctx.ok(rule, short_p, "%d height/width-typed expressions, no axis conflict" % a.tagged, c.loc(fn))
+    ctx.check(rule, "coverage", total >= floor_tagged, "too-few-axis-typed-expressions:%d" % total, "crate",
+              "%d axis-typed expressions analysed" % total, "only %d axis-typed expressions found (expected >= %d)" % (total, floor_tagged))
